@@ -137,7 +137,7 @@ ALIAS = {
     "state": {"state"}, "zalloc": {"zalloc"}, "zfree": {"zfree"},
     "mode": {"mode"}, "wbits": {"wbits", "window_bits"}, "windowbits": {"window_bits", "wbits"},
     "flags": {"gzip_flags", "flags"}, "check": {"checksum"}, "havedict": {"have_dict", "flags"}, "last": {"is_last_block", "flags", "last"},
-    "bits": {"bits_in_buffer", "bitreader::bits_in_buffer", "bits"}, "hold": {"hold", "bitreader::hold"},
+    "bits": {"bits_in_buffer", "bitreader::bits_in_buffer", "bits", "bits_used"}, "hold": {"hold", "bitreader::hold", "bit_buffer"},
     "block_open": {"block_open"}, "match_available": {"match_available"},
     "memlevel": {"mem_level"}, "w_bits": {"window_bits", "w_bits"},
     "in": {"input", "in_size"}, "out": {"output"}, "size": {"in_size", "out_size", "size", "in_capacity", "out_capacity"}, "want": {"want"},
@@ -307,6 +307,15 @@ def find(c, sigs_toks):
         for s, toks in sigs_toks:
             if s.rel == rs["rel"] and structural(s) == rs:
                 return s
+    elif not c["fields"] and not c["names"]:
+        # a comparison between working locals only (`have < len`): nothing of it survives a renaming of the locals
+        # except its shape - a comparison of the same class between two plain locals / parameters
+        want = EQ_RELS if c["cls"] == "eq" else ORD_RELS
+        for s, toks in sigs_toks:
+            if s.rel in want and s.kind == "cmp":
+                st = structural(s)
+                if not st["names"] and not st["calls"] and not st["consts"]:
+                    return s
     return None
 
 
@@ -399,6 +408,41 @@ def rust_const_stores(fns):
             v = f.const_of(rv)
             if v is not None and fp:
                 out.add((str(fp[-1]).lower(), int(v)))
+    return out
+
+
+C_OPS = {">>=": "Shr", "<<=": "Shl", "+=": "Add", "-=": "Sub", "|=": "BitOr", "&=": "BitAnd", "^=": "BitXor"}
+
+
+def c_opassigns(body):
+    """(field, operator) for every compound assignment `state->field OP= ...` of a C function body"""
+    out = set()
+    for m in re.finditer(r"\b(?:s|state|strm)->(?:x\.|strm\.)?(\w+)\s*(>>=|<<=|\+=|-=|\|=|&=|\^=)", body):
+        out.add((m.group(1), C_OPS[m.group(2)]))
+    return sorted(out)
+
+
+def rust_opassigns(fns):
+    """(field, operator) for every store `place.field = place.field OP ...` (a compound assignment)"""
+    out = set()
+    for f in fns:
+        for bi, fp, root, rv, st in f.field_writes():
+            if not fp:
+                continue
+            e = f.rvalue_expr(rv) if isinstance(rv, dict) else rv
+            e = mir.strip_casts(e)
+            # checked arithmetic: (a + b).0
+            if e and e[0] == "f" and isinstance(e[1], tuple) and e[1] and e[1][0] == "bin":
+                e = e[1]
+            if not (e and e[0] == "bin"):
+                continue
+            lhs = mir.strip_casts(e[2])
+            r2, p2 = mir.field_path(lhs)
+            if p2 and str(p2[-1]) == str(fp[-1]):
+                op = str(e[1])
+                for suf in ("WithOverflow", "Unchecked"):
+                    op = op.replace(suf, "")
+                out.add((str(fp[-1]).lower(), op))
     return out
 
 
@@ -501,6 +545,21 @@ def check(ck, P, rule, only=None):
             ck.decide(any((a_, v) in cst for a_ in alts), rule, "%s:stores:%s=%d" % (cname, cf, v), "still stored",
                       "zlib-ng's %s sets `%s = %d`; %s (with its helpers) no longer stores that value in it: a flag or counter of the "
                       "reference is no longer (re)set" % (cname, cf, v, ", ".join(f.path.replace(Z, "") for f in fns)), where(fns[0]))
+        rops = rust_opassigns(allf)
+        for cf, op in table.get("opassigns", {}).get(key, []):
+            n += 1
+            alts = ALIAS.get(cf.lower(), {cf.lower()}) | {cf.lower()}
+            ck.decide(any((a_, op) in rops for a_ in alts), rule, "%s:update:%s:%s" % (cname, cf, op), "still updated with that operator",
+                      "zlib-ng's %s updates `%s` with %s; %s (with its helpers) no longer updates it that way: the direction or kind of "
+                      "an in-place update of the reference has changed" % (cname, cf, op, ", ".join(f.path.replace(Z, "") for f in fns)), where(fns[0]))
+        for cf, frozen in sorted(table.get("opsets", {}).get(key, {}).items()):
+            n += 1
+            alts = ALIAS.get(cf.lower(), {cf.lower()}) | {cf.lower()}
+            now = {op for (a_, op) in rops if a_ in alts}
+            extra = sorted(now - set(frozen))
+            ck.decide(not extra, rule, "%s:update:%s:only" % (cname, cf), "no other in-place operator on that field",
+                      "%s now updates `%s` in place with %s, which neither zlib-ng's %s nor the port did: the direction or kind of an "
+                      "in-place update has changed" % (", ".join(f.path.replace(Z, "") for f in fns), cf, "/".join(extra), cname), where(fns[0]))
         lits = rust_literals(allf)
         for v in table.get("literals", {}).get(key, []):
             n += 1
